@@ -315,6 +315,26 @@ def run(chk):
                   and not source.is_const(n.value, True) and m.name != "__init__"]
         ok = len(clears) >= 1 and all(source.enclosing_func(n) is jr and any(t is bt.test and pol for t, pol in guards(n)) and source.is_const(n.value, False) for n in clears)
         chk.ob("O1.4", "flag cleared only when the barrier closes", ok, clears[0] if clears else jr, f"{len(clears)} clearing store(s)")
+    # key-domain agreement: the per-step arrival map is keyed by WORKER id; the pending test must map client -> worker first
+    if stepmap:
+        lookups = []
+        for n in walk_body(mc):
+            if isinstance(n, ast.Compare) and len(n.ops) == 1 and isinstance(n.ops[0], (ast.In, ast.NotIn)) and is_self_attr(n.comparators[0], stepmap):
+                lookups.append((n, n.left))
+            elif isinstance(n, ast.Subscript) and is_self_attr(n.value, stepmap):
+                lookups.append((n, n.slice))
+        mdefs = local_defs(mc)
+        # loop-local single assignments too
+        for n in walk_body(mc):
+            if isinstance(n, ast.Assign) and len(n.targets) == 1 and isinstance(n.targets[0], ast.Name):
+                mdefs.setdefault(n.targets[0].id, n.value)
+        for n, key in lookups:
+            src = mdefs.get(key.id) if isinstance(key, ast.Name) else key
+            ok = isinstance(src, ast.Subscript) and is_self_attr(src.value, "clients_per_worker")
+            chk.ob("O1.4", "arrival map (keyed by worker id) consulted with the client's worker id", ok, n,
+                   f"key `{u(key)}` = `{u(src) if src is not None else '?'}`" + ("" if ok else " is not a worker id obtained from clients_per_worker[client]: with several clients per worker the test reads the wrong entry"))
+        if not lookups:
+            chk.ob("O1.4", "pending test for the completing task's clients", False, mc, "the completed-by branch never consults the per-step arrival map")
     mc_calls = package_calls(repo, "may_complete_current_task")
     ok = bool(mc_calls) and all(source.enclosing_func(x) is jr and any(t is bt.test and not pol for t, pol in guards(x)) for x in mc_calls)
     chk.ob("O1.4", "completion check only while the barrier is still open", ok, mc_calls[0] if mc_calls else mc, "")
@@ -391,6 +411,20 @@ def run(chk):
             chk.ob("O1.6", "executor: complete.set() only for a task that completes its parent", ok, s, f"in finally={in_finally}, cause={names}")
         else:
             chk.ob("O1.6", f"complete.set() in {source.qualname(s)}", False, s, "set site outside the two sanctioned places")
+
+    # both causes must be signalled by the executor (several clients of one worker share the event: a finished completing client must end its siblings)
+    ex_sets = [s_ for s_ in sets if source.enclosing_func(s_) is ex_call]
+    for cause in ("self.task.completes_parent", "self.task.any_completes_parent"):
+        have = False
+        for s_ in ex_sets:
+            for t, pol in guards(s_):
+                if pol and isinstance(t, ast.Name) and inline(t, edefs) == cause:
+                    have = True
+                if pol and u(t) == cause:
+                    have = True
+        chk.ob("O1.6", f"executor signals completion when {cause.split('.')[-1]}", have, ex_call,
+               "complete.set() in the finally under this cause" if have else "no complete.set() for this cause: sibling clients in the same worker keep running, no worker reaches the join point, the race hangs",
+               key=f"{_D}:AsyncExecutor.__call__:cause:{cause}")
 
     # Worker handler: truth table over (J = at join point, S = Drive received but start wake-up pending)
     from sa.sym import UnknownAtom, truth_table
@@ -583,6 +617,8 @@ VARIANTS = [
     V("start_driving never reset", "break", _D, "            self.start_driving = False\n            self.drive()", "            self.drive()", "O1.7"),
     V("is_joinpoint any", "break", _D, "        return all(isinstance(t.task, JoinPoint) for t in self.tasks(task_index))", "        return any(isinstance(t.task, JoinPoint) for t in self.tasks(task_index))", "O1.9"),
     V("index advanced twice", "break", _D, "        self.next_task_index += 1\n        self.logger.debug(\"Worker[%d] is at task index", "        self.next_task_index += 2\n        self.logger.debug(\"Worker[%d] is at task index", "O1.9"),
+    V("seed m1: client id looked up in the worker-keyed map", "break", _D, "                worker_id = self.clients_per_worker[client_id]\n                if worker_id not in self.workers_completed_current_step:", "                if client_id not in self.workers_completed_current_step:", "O1.4"),
+    V("seed m3: no completion signal for any", "break", _D, "            elif any_task_completes_parent:\n                self.logger.info(", "            elif False:\n                self.logger.info(", "O1.6"),
     # preserving
     V("barrier with >=", "keep", _D, "        if self.currently_completed == len(self.workers):", "        if self.currently_completed >= len(self.workers):"),
     V("barrier operands swapped", "keep", _D, "        if self.currently_completed == len(self.workers):", "        if len(self.workers) == self.currently_completed:"),
